@@ -137,6 +137,8 @@ def gen_resp(rng, tier):
         toks.append("chunks=" + ",".join(map(str, pieces)))
         if rng.random() < 0.3:
             toks.append("slow=1")
+    if n > 0 and mode in ("chunked", "close") and rng.random() < 0.15:
+        toks.append("hold=1")   # a stream that is silent after its head (SSE, long poll): the head must be relayed on its own
     rh = [] if s == 304 else [("Content-Type", rng.choice(["text/plain", "application/octet-stream", "text/event-stream"]))]
     names = []
     for _ in range(rng.randint(0, 4)):
@@ -251,7 +253,10 @@ def tokens_of(values):
 
 def parse_out(o):
     f = o.split(" ")
-    d = {"first": f[0], "H": {}, "ev": None, "rec": None, "body": None}
+    head = None
+    if f and f[0].startswith("head="):
+        head, f = f[0][5:], f[1:] or [""]
+    d = {"first": f[0], "H": {}, "ev": None, "rec": None, "body": None, "head": head}
     inh = False
     for t in f[1:]:
         if t == "H":
@@ -303,6 +308,9 @@ def monitor(ops, outs):
             kv = dict(t.split("=", 1) for t in f[1:] if "=" in t and not t.startswith("rh="))
             if d["first"] != kv["s"]:
                 bad.append("status: line %d backend answered %s, client got %s" % (i, kv["s"], d["first"]))
+            if kv.get("hold") == "1" and d["head"] != "early":
+                bad.append("stream: line %d the backend sent the head of a stream of undeclared length and then stayed silent: the client "
+                           "did not get status and headers until body data followed (head=%s)" % (i, d["head"]))
             if d["rec"] != kv["s"]:
                 bad.append("status: line %d backend answered %s, proxy recorded %s" % (i, kv["s"], d["rec"]))
             if d["body"] != kv["d"]:
